@@ -120,7 +120,8 @@ def oracle_naive(case, ctx):
 
 @st.composite
 def naive_cases(draw, strategy, in_sample=False):
-    sp = 1 if strategy == "drift" else draw(st.sampled_from([1, 1, 2, 3, 4, 5, 7, 8]))
+    # (the drift strategy is documented to ignore the seasonal periodicity: any value may be given)
+    sp = draw(st.sampled_from([1, 1, 2, 3, 4, 5, 7, 8]))
     n = draw(st.integers(max(3, sp + 1), 40))
     if strategy == "last":
         # a window length may be given; the last-value strategies do not use it
